@@ -42,6 +42,16 @@ PRESET_FLAGS = {  # preset -> (O, TW, L, B)
 }
 
 
+OPTIONAL_GROUPS = [  # constructor arguments a minimised plan may fall back to the default for
+    ("loc_distribution", "loc_mean", "loc_std", "n_cluster", "n_cluster_mix", "num_modes", "cdist"),
+    ("depot_distribution",), ("min_loc", "max_loc"), ("capacity",), ("max_demand",), ("max_time",),
+    ("max_length",), ("penalty_factor",), ("min_skill", "max_skill"), ("min_dist", "max_dist"),
+    ("min_lateness_weight", "max_lateness_weight"), ("backhaul_ratio",), ("speed",),
+    ("distance_limit",), ("scale_demand",), ("min_processing_time",), ("max_time_span", "max_process_time"),
+    ("min_weight", "max_weight"), ("min_eligible_ma_per_op", "max_eligible_ma_per_op"),
+]
+
+
 # ------------------------------------------------------------------------------------------------
 # swarm configuration
 # ------------------------------------------------------------------------------------------------
@@ -836,9 +846,10 @@ def _check_mcp(ctx, gen, td, B):
 # ------------------------------------------------------------------------------------------------
 # solvability: a mask-confined episode from the generated batch completes
 # ------------------------------------------------------------------------------------------------
-def episode(ctx, env, td0, strategies):
+def episode(ctx, env, td0, strategies, B, seam=None):
+    """td0 given: reset from the generated batch.  td0 None: `env.reset(batch_size=[B])` draws the batch
+    itself (the second observation point the property names), under `seam`."""
     run, name, cfg = ctx.run, ctx.name, ctx.cfg
-    B = td0.batch_size[0]
 
     def lib(fn, what, **detail):
         try:
@@ -849,20 +860,39 @@ def episode(ctx, env, td0, strategies):
             where, f, func = _blame(e)
             if where != "repo":
                 raise
+            if f.endswith("generator.py") or f.endswith("distribution_utils.py") or f.endswith("common/utils.py"):
+                run.probe(f"generator_raised:{name}")
+                ctx.fail(f"exception:{type(e).__name__}@{f}:{func}", "generate",
+                         f"generator raised inside {what} for a documented parameterisation: "
+                         f"{type(e).__name__}: {str(e)[:200]}", exc_type=type(e).__name__, exc_file=f,
+                         exc_func=func, **detail)
+                return None
             ctx.fail("unsolvable", f"exception:{type(e).__name__}@{func}",
                      f"{what} on a generated instance raised {type(e).__name__}: {str(e)[:200]}",
                      exc_file=f, **detail)
             return None
 
-    td = lib(lambda: env.reset(td0.clone()), "env.reset", B=B)
+    if td0 is not None:
+        td = lib(lambda: env.reset(td0.clone()), "env.reset", B=B)
+    else:
+        def _reset_draw():
+            with seam:
+                return env.reset(batch_size=[B])
+
+        td = lib(_reset_draw, "env.reset(batch_size)", B=B)
+        run.probe("via_reset")
     if td is None:
         return False
     cap = D.step_bound_generic(cfg, td)
+    if name == "ffsp":
+        # every time unit costs up to one (wait) step per machine: the generic cap is not generous here
+        g = env.generator
+        cap = max(cap, g.num_job * g.num_stage * (1 + g.max_time * g.num_machine_total) + 60)
     mdc = None
     if name == "mdcpdp":
-        Dp = td0["depot"].shape[-2]
-        h = td0["locs"].shape[-2] // 2
-        mdc = {"D": Dp, "h": h, "visited": [set() for _ in range(B)]}
+        Dp = env.generator.num_depot
+        h = env.generator.num_loc // 2
+        mdc = {"D": Dp, "h": h, "visited": [set() for _ in range(B)], "capw": int(td["capacity"].shape[-1])}
     t = 0
     while True:
         done = E.done_vec(td)
@@ -870,7 +900,7 @@ def episode(ctx, env, td0, strategies):
             break
         if t >= cap:
             ctx.fail("unsolvable", "step_cap", f"episode not finished after {t} steps "
-                     f"(cap 6*{td['action_mask'].shape[-1]}+60); done={done.tolist()}", B=B, tick=t)
+                     f"(cap {cap}); done={done.tolist()}", B=B, tick=t)
             return False
         acts = []
         mask = td["action_mask"]
@@ -894,8 +924,8 @@ def episode(ctx, env, td0, strategies):
                                  f"row {i} tick {t}: delivery node {a} is offered although its pickup "
                                  f"{a - mdc['h']} has not been visited (documented layout: {mdc['D']} depots, "
                                  f"{mdc['h']} pickups, {mdc['h']} deliveries; the environment derives the "
-                                 f"depot count from capacity.shape[-1] = {td0['capacity'].shape[-1]})",
-                                 num_depot=mdc["D"], capacity_width=int(td0["capacity"].shape[-1]))
+                                 f"depot count from capacity.shape[-1] = {mdc['capw']})",
+                                 num_depot=mdc["D"], capacity_width=mdc["capw"])
                         return False
             a = D.choose(run, strategies[i % len(strategies)], td, i, opts)
             if mdc is not None:
@@ -968,7 +998,8 @@ class C18:
             B = rc.choice([1, 1, 2, 2, 3, 4, 4, 5, 6, 8])
             k = rc.randint(1, 2)
             strat = [rc.choice(D.STRATEGIES) for _ in range(k)]
-            batches.append({"B": B, "seed": rc.randrange(1 << 30), "strategies": strat})
+            batches.append({"B": B, "seed": rc.randrange(1 << 30), "strategies": strat,
+                            "via_reset": rc.random() < 0.12})
         seam = {"p_call": rc.choice([0.15, 0.3, 0.5, 0.8, 1.0])}
         return {"cfg": cfg, "mode": mode, "batches": batches, "seam": seam}
 
@@ -987,10 +1018,25 @@ class C18:
                 p = copy.deepcopy(plan)
                 p["batches"] = [p["batches"][bi]]
                 yield p
+        if plan["mode"] != "clean":
+            p = copy.deepcopy(plan)
+            p["mode"] = "clean"
+            yield p
         for bi, b in enumerate(plan["batches"]):
-            if len(b["strategies"]) > 1 or b["strategies"] != ["lowest"]:
+            if b["strategies"] != ["lowest"]:
                 p = copy.deepcopy(plan)
                 p["batches"][bi]["strategies"] = ["lowest"]
+                yield p
+            if b["B"] > 1:
+                p = copy.deepcopy(plan)
+                p["batches"][bi]["B"] = 1
+                yield p
+        g = plan["cfg"]["gen"]
+        for grp in OPTIONAL_GROUPS:
+            if any(k in g for k in grp):
+                p = copy.deepcopy(plan)
+                for k in grp:
+                    p["cfg"]["gen"].pop(k, None)
                 yield p
 
     # ---------------------------------------------------------------------------------------------
@@ -1009,54 +1055,61 @@ class C18:
                        constraint="constructor"):
             env = E.make_env(cfg)
         gen = env.generator
-        srng = run.streams.get("faults")
         for bi, b in enumerate(plan["batches"]):
             B = b["B"]
             ctx = Ctx(run, name, cfg, mode, bi)
             fired = []
+            # one named sub-stream per batch (keyed by the batch seed, so that dropping other batches
+            # during minimisation leaves this batch's injected draws unchanged)
+            srng = run.streams.get(f"faults:{b['seed']}")
             seam = (ExtremeDraw(srng, p_call=plan["seam"]["p_call"], ties=(mode == "ties"),
                                 extreme=True, on_fire=lambda kind, n: fired.append((kind, n)))
                     if mode != "clean" else contextlib.nullcontext())
             torch.manual_seed(b["seed"])
             random.seed(b["seed"])  # Mix_Multi_Distributions draws from Python's global RNG
+            run.state(name, mode, B, size)
             td = None
-            try:
-                with seam:
-                    td = gen(batch_size=[B])
-            except (HarnessError, StopRun):
-                raise
-            except Exception as e:  # noqa: BLE001
-                where, f, func = _blame(e)
-                if where != "repo":
+            via_reset = bool(b.get("via_reset"))
+            if not via_reset:
+                try:
+                    with seam:
+                        td = gen(batch_size=[B])
+                except (HarnessError, StopRun):
                     raise
-                run.probe(f"generator_raised:{name}")
-                ctx.fail(f"exception:{type(e).__name__}@{f}:{func}", "generate",
-                         f"generator raised for a documented parameterisation (B={B}, seed={b['seed']}): "
-                         f"{type(e).__name__}: {str(e)[:200]}", exc_type=type(e).__name__, exc_file=f,
-                         exc_func=func, B=B, seed=b["seed"])
+                except Exception as e:  # noqa: BLE001
+                    where, f, func = _blame(e)
+                    if where != "repo":
+                        raise
+                    run.probe(f"generator_raised:{name}")
+                    ctx.fail(f"exception:{type(e).__name__}@{f}:{func}", "generate",
+                             f"generator raised for a documented parameterisation (B={B}, seed={b['seed']}): "
+                             f"{type(e).__name__}: {str(e)[:200]}", exc_type=type(e).__name__, exc_file=f,
+                             exc_func=func, B=B, seed=b["seed"])
+            ok = done = False
+            if td is not None:
+                if bi == 0 and sum(v[0].numel() for v in td.values()) <= 400:
+                    run.c18_first = {k: E.enc_tensor(v[0]) for k, v in td.items()}
+                ok = check_structure(ctx, gen, td, B)
+                if ok:
+                    check_ranges(ctx, gen, td, B)
+                done = episode(ctx, env, td, b["strategies"], B)
+            elif via_reset:
+                done = episode(ctx, env, None, b["strategies"], B, seam=seam)
             for kind, n in fired:
                 run.fault("extreme_draw", kind, n)
             if fired:
                 run.nontrivial = True
-                run.probe("ties_fired" if any(k.startswith("tie:") for k, _ in fired) else "extreme_fired")
-                if mode == "ties" and any(not k.startswith("tie:") for k, _ in fired):
+                if any(k.startswith("tie:") for k, _ in fired):
+                    run.probe("ties_fired")
+                if any(not k.startswith("tie:") for k, _ in fired):
                     run.probe("extreme_fired")
             if len(set(b["strategies"])) > 1 and B > 1:
                 run.nontrivial = True
             run.probe(f"batches:{mode}")
             run.probe(f"batches_gen:{name}")
-            if td is None:
-                run.log.add("batch", bi, B, "raised")
-                continue
             run.probe("rows", B)
-            if bi == 0:
-                run.c18_first = {k: E.enc_tensor(v[0]) for k, v in td.items()} if B <= 8 and sum(
-                    v[0].numel() for v in td.values()) <= 400 else None
-            ok = check_structure(ctx, gen, td, B)
-            if ok:
-                check_ranges(ctx, gen, td, B)
-            done = episode(ctx, env, td, b["strategies"])
-            run.log.add("batch", bi, B, _digest(td), bool(ok), bool(done), bool(ctx.bad))
+            run.log.add("batch", bi, B, _digest(td) if td is not None else ("via_reset" if via_reset else "raised"),
+                        bool(ok), bool(done), bool(ctx.bad))
 
 
 def _digest(td):
